@@ -1,15 +1,16 @@
 // C03 — Block change hash depends only on the final key/value content.
 //
 // Oracle (runtime, on the real overlaydb.OverlayDB / MemDB / storage.CacheDB):
-//  (1) model: a plain Go map key -> final value ("" = deleted) over the touched keys.
-//      OverlayDB.ChangeHash() must equal sha256(concat over ascending keys of key||val) of
-//      the model, and GetWriteSet().ForEach must enumerate exactly the model in strictly
-//      ascending key order.
-//  (2) metamorphic: the same final map is reached through several differently shaped
-//      operation sequences (sorted, permuted, overwrite-then-restore, delete-then-recreate,
-//      same-value overwrite, routed through CacheDB transactions incl. discarded ones,
-//      on a Reset() overlay); all must give the same hash and the same write set as the
-//      original random history.
+//
+//	(1) model: a plain Go map key -> final value ("" = deleted) over the touched keys.
+//	    OverlayDB.ChangeHash() must equal sha256(concat over ascending keys of key||val) of
+//	    the model, and GetWriteSet().ForEach must enumerate exactly the model in strictly
+//	    ascending key order.
+//	(2) metamorphic: the same final map is reached through several differently shaped
+//	    operation sequences (sorted, permuted, overwrite-then-restore, delete-then-recreate,
+//	    same-value overwrite, routed through CacheDB transactions incl. discarded ones,
+//	    on a Reset() overlay); all must give the same hash and the same write set as the
+//	    original random history.
 package main
 
 import (
@@ -18,6 +19,7 @@ import (
 	"fmt"
 	"runtime"
 	"sort"
+	"sync/atomic"
 	"time"
 
 	"github.com/ontio/ontology/core/store/leveldbstore"
@@ -62,7 +64,17 @@ func apply(store *leveldbstore.LevelDBStore, steps []step) *overlaydb.OverlayDB 
 		}
 		return tx
 	}
-	for _, s := range steps {
+	// in half of the histories the change hash is also READ between the operations (an observer asking for
+	// it must not influence what it is later)
+	hashEvery := 0
+	if len(steps)%2 == 0 {
+		hashEvery = 2 + len(steps)%5
+	}
+	for i, s := range steps {
+		if hashEvery > 0 && i%hashEvery == hashEvery-1 {
+			ov.ChangeHash()
+			intermediateHashReads.Add(1)
+		}
 		switch s.Kind {
 		case "ov.put":
 			ov.Put(s.K, s.V)
@@ -84,6 +96,8 @@ func apply(store *leveldbstore.LevelDBStore, steps []step) *overlaydb.OverlayDB 
 	}
 	return ov
 }
+
+var intermediateHashReads atomic.Int64
 
 func writeSet(db *overlaydb.MemDB) []kvl.KV {
 	var got []kvl.KV
@@ -211,6 +225,8 @@ func main() {
 		"variant/via_cachedb", "variant/after_reset", "via_cachedb_discarded_tx", "via_cachedb_committed_tx", "deepclone_checked"} {
 		r.Require(c, 20)
 	}
+	r.Add("intermediate_change_hash_reads", intermediateHashReads.Load())
+	r.Require("intermediate_change_hash_reads", 1000)
 	r.Assume("the un-delimited key||value encoding of ChangeHash is taken as the definition of the hash (collisions between different maps are not claimed absent)")
 	r.Assume("keys 0..40 bytes over the alphabet {00,05,61,62,ff}; values 2..12 bytes (or empty = delete); 1..400 operations per history")
 	r.Finish()
